@@ -197,10 +197,36 @@ func vh_C03_step_encode() {
 	vxReach("encoded")
 	vxCheckInv(m, k, "after Encode")
 	vxAssert(len(m.Raw) == len(snap.raw), "Encode reproduces the size of the canonical bytes")
+	// every value is followed by ZERO padding after Encode, whatever padding the decoded input carried
+	for i := range m.Attributes {
+		n := len(m.Attributes[i].Value)
+		pad := (4 - n%4) % 4
+		end := messageHeaderSize
+		for j := 0; j <= i; j++ {
+			end += 4 + (len(m.Attributes[j].Value)+3)&^3
+		}
+		pz := vxWitness(pad)
+		vxAssert(vxImplies(pz < pad, vxAt(m.Raw, end-pad+pz) == 0), "after Encode: padding bytes are zero")
+	}
 	vxAssert(len(m.Attributes) == snap.nattr, "Encode keeps the attribute list")
 	// bytes are reproduced except for padding, which Encode writes as zero
 	w := vxWitness(len(snap.raw))
 	vxAssert(vxImplies(w < messageHeaderSize, vxAt(m.Raw, w) == vxAt(snap.raw, w)), "Encode reproduces the header bytes")
+}
+
+// a refused setter (integrity after FINGERPRINT) leaves the message coherent
+func vh_C03_step_refused() {
+	k := vxK(1, 2)
+	m, ok := vxBuiltState(k)
+	if !ok {
+		return
+	}
+	if !m.Contains(AttrFingerprint) {
+		return
+	}
+	vxReach("refused")
+	vxAssert(MessageIntegrity(vxBytes(3, 3)).AddTo(m) != nil, "integrity after FINGERPRINT is refused")
+	vxCheckInv(m, k, "after a refused setter")
 }
 
 // encode-then-decode is the identity on content, and Equal agrees (small values:
